@@ -511,7 +511,7 @@ Proof.
   induction tr as [|[e c] r IH]; intros st H; cbn [fold_left] in H; [left; exact H|].
   destruct (IH _ H) as [H1|[sp [sels [c' [cmp [ms [cs [Hin [Hr Hn]]]]]]]]].
   - unfold hh in H1. cbn [fst snd] in H1.
-    destruct e as [n|n]; [destruct n|]; cbn [ofm_step] in H1; try (left; exact H1).
+    destruct e as [n|n]; [destruct n|]; cbn [ofm_step ofm_step_with] in H1; try (left; exact H1).
     destruct (mrun (merge_fuel d) s d (CWithinSelectionSet (current_parent_type c) items) (mkMS (ofm_compared st) [] []))
       as [[ms cs]|] eqn:E.
     + cbn [ofm_res r_errors] in H1. destruct (r_errors (ofm_res st)) as [|e0 l0] eqn:El.
